@@ -153,7 +153,7 @@ def parser_family_check(prop, tier, seed, replay, mask, suites, models=(), requi
     if missing:
         if not rep.new:
             raise ToolError("vacuous run: input classes never generated: %s" % missing)
-    if not rep.new:
+    if not rep.new and required_results:
         want_err = any(r.startswith("Err") for r in required_results)
         soft_required([r for r in required_results if results.get(r, 0) == 0],
                       results.get("Ok", 0) > 0 and (not want_err or any(k.startswith("Err") and v > 0 for k, v in results.items())))
